@@ -461,9 +461,14 @@ def resolve_globs(glob_path: str, root_path: str = None) -> list[str]:
     True
     """
     if not os.path.isabs(glob_path) and root_path:
+        # A pattern without a name in it ("", "." or "./") is the root itself
+        if not Path(glob_path).parts:
+            return [str(Path(root_path).resolve())]
         return [str(p.resolve()) for p in Path(root_path).resolve().glob(glob_path)]
     p = Path(glob_path).resolve()
     root = p.anchor  # drive letter + root path
+    if p == Path(root):
+        return [str(p)]
     rel = str(p.relative_to(root))  # contains glob pattern
     return [str(p.resolve()) for p in Path(root).glob(rel)]
 
